@@ -39,6 +39,13 @@ func (aw *Writer) Write(p []byte) (int, error) {
 	}
 }
 
+// HasRoom reports whether the next n calls to Write are certain to succeed. This holds for a
+// single producer, because all other goroutines only ever remove items from the channel. Use it to
+// keep a record that takes several Write calls from being written partially.
+func (aw *Writer) HasRoom(n int) bool {
+	return cap(aw.datachannel)-len(aw.datachannel) >= n
+}
+
 // WriteString sends a string to the channel for later writing (with an annoying copy--sorry!)
 func (aw *Writer) WriteString(s string) (int, error) {
 	return aw.Write([]byte(s))
